@@ -96,10 +96,16 @@ def capture_door(hint, conf=None):
     with recording() as recs2:
         with warnings.catch_warnings():
             warnings.simplefilter('ignore')
+            n0 = len(RECORDS)
             try:
                 die_if_unbearable(_Dummy(), hint, conf=conf)
             except BeartypeCallHintViolation:
                 pass
+            except Exception:
+                # a configured non-beartype violation class raised by the generated raiser is
+                # expected; anything raised before code was generated is a generation error
+                if len(RECORDS) == n0:
+                    raise
     raiser = recs2[-1] if recs2 else None
     return tester, raiser
 
